@@ -278,37 +278,88 @@ def run(ctx, prog, res):
         ("opening_hours_syntax::parser::build_date_to", "p2@Fixed.year@Some.0"): (9999, "the start date of a range was parsed through the `year` token language, 1900..=9999 (C05.R3)"),
     }
 
-    def ub(fn, node, ty):
-        """Upper bound of a non-negative integer term, None when unknown."""
-        k = node[0]
-        if k == "int":
-            return node[1]
-        if k == "cast":
-            inner = ub(fn, node[1], node[2])
-            m = TYMAX.get(node[2], terms.INT_RANGE.get(node[2], (0, None))[1])
-            return m if inner is None else (min(inner, m) if m is not None else inner)
-        if k == "proj" and node[2] in (0, "0"):
-            return ub(fn, node[1], ty)
-        if k == "app":
-            nm = node[1].split("::")[-1]
-            if nm == "Rem" and len(node[2]) == 2 and node[2][1][0] == "int" and node[2][1][1] > 0:
-                return node[2][1][1] - 1
-            if nm in ("Add", "Mul") and len(node[2]) == 2:
-                a, b = ub(fn, node[2][0], ty), ub(fn, node[2][1], ty)
-                if a is None or b is None:
-                    return None
-                return a + b if nm == "Add" else a * b
-            if nm == "discr" and len(node[2]) == 1 and node[2][0][0] == "var" and re.fullmatch(r"p\d+", node[2][0][1]):
-                lty = fn.locals[int(node[2][0][1][1:])]["ty"].replace("&", "").strip()
-                a = prog.adts.get(lty)
-                if a and a["variants"]:
-                    return max(a["discrs"] or range(len(a["variants"])))
+    TRANSPARENT = re.compile(r"(Deref>?::deref|Clone>?::clone|>::from|>::into|::from|::into|Borrow<.*>>::borrow)$")
+
+    def tymax_of(ty):
+        ty = (ty or "").replace("&", "").strip()
+        if ty in TYMAX:
+            return TYMAX[ty]
+        r = terms.INT_RANGE.get(ty)
+        return r[1] if r else None
+
+    def place_ty(fn, pl):
+        fs = [q for q in pl["p"] if isinstance(q, dict) and "f" in q]
+        return (fs[-1]["ty"] if fs else fn.locals[pl["l"]]["ty"]) or ""
+
+    def ub_local(fn, l, seen):
+        """Upper bound of a non-negative integer local from its definitions (None = unknown)."""
+        if l in seen:
             return None
-        if k == "var":
-            r = RANGES.get((fn.id, node[1]))
-            if r:
-                return r[0]
-        return None
+        seen = seen | {l}
+        r = RANGES.get((fn.id, "p%d" % l)) if 1 <= l <= fn.j["arg_count"] else None
+        if r:
+            return r[0]
+        defs = fn.defs_of(l)
+        if not defs:
+            return tymax_of(fn.locals[l]["ty"])
+        best = None
+        for _, n in defs:
+            v = None
+            if n["k"] == "assign":
+                rv = n["rv"]
+                if rv["k"] == "use":
+                    v = ub_op(fn, rv["op"], seen)
+                elif rv["k"] == "cast":
+                    inner = ub_op(fn, rv["op"], seen)
+                    m = tymax_of(rv["ty"])
+                    v = m if inner is None else (min(inner, m) if m is not None else inner)
+                elif rv["k"] == "discr":
+                    ty = place_ty(fn, rv["pl"]).replace("&", "").strip()
+                    a = prog.adts.get(ty.split("<")[0])
+                    if a and a["variants"]:
+                        v = max(a["discrs"] or range(len(a["variants"])))
+                elif rv["k"] == "bin":
+                    op = rv["op"].replace("WithOverflow", "").replace("Unchecked", "")
+                    x, y = ub_op(fn, rv["a"], seen), ub_op(fn, rv["b"], seen)
+                    if op == "Rem" and y is not None and rv["b"].get("k") == "const" and y > 0:
+                        v = y - 1
+                    elif op == "Add" and x is not None and y is not None:
+                        v = x + y
+                    elif op == "Mul" and x is not None and y is not None:
+                        v = x * y
+                    elif op in ("Sub", "Div", "Rem", "BitAnd", "Shr") and x is not None:
+                        v = x
+                elif rv["k"] in ("ref",):
+                    v = ub_place(fn, rv["pl"], seen)
+            elif n["k"] == "call" and n["args"] and TRANSPARENT.search(flow.call_name(n) or ""):
+                v = ub_op(fn, n["args"][0], seen)
+            if v is None:
+                return tymax_of(fn.locals[l]["ty"])
+            best = v if best is None else max(best, v)
+        return best
+
+    def ub_place(fn, pl, seen):
+        projs = [q for q in pl["p"] if isinstance(q, dict)]
+        fields = [q for q in projs if "f" in q]
+        if not fields:
+            return ub_local(fn, pl["l"], seen)
+        # `(checked op).0`
+        if len(fields) == 1 and fields[0]["f"] == 0:
+            defs = fn.defs_of(pl["l"])
+            if len(defs) == 1 and defs[0][1]["k"] == "assign" and defs[0][1]["rv"]["k"] == "bin" and "WithOverflow" in defs[0][1]["rv"]["op"]:
+                return ub_local(fn, pl["l"], seen)
+        r = RANGES.get((fn.id, flow.shape(fn, {"k": "copy", "pl": pl}, depth=4)))
+        if r:
+            return r[0]
+        return tymax_of(fields[-1].get("ty"))
+
+    def ub_op(fn, op, seen=frozenset()):
+        if op.get("k") == "const":
+            return op.get("int") if isinstance(op.get("int"), int) and op.get("int") >= 0 else None
+        pl = lib.operand_place(op)
+        if pl is None:
+            return None
+        return ub_place(fn, pl, seen)
 
     n6 = 0
     for fid, fn in sorted(prog.fns.items()):
@@ -327,10 +378,7 @@ def run(ctx, prog, res):
                 continue
             n6 += 1
             shs = [flow.shape(fn, o, depth=6) for o in t["ops"]]
-            try:
-                bounds = [ub(fn, terms.parse(sh), ty) for sh in shs]
-            except terms.TermError:
-                bounds = [None, None]
+            bounds = [ub_op(fn, o) for o in t["ops"]]
             if None in bounds:
                 total = None
             else:
